@@ -839,7 +839,14 @@ theorem spec_getConnection (cf : Cfg) (q p : Bool) (s : St) (hwf : cf.WF) (hI : 
 theorem spec_runOp (cf : Cfg) (q p : Bool) (op : Op) (s : St) (hwf : cf.WF) (hI : Inv cf q p s) :
     wp (runOp cf op) (fun _ s' => Inv cf q p s') (fun _ s' => Inv cf q p s' ∧ q = false) s := by
   cases op with
-  | query => exact wp_mono (spec_execSql cf q p false false s hwf hI) (fun _ _ h => h.1) (fun _ _ h => h)
+  | query =>
+    simp only [runOp, wp_bind]
+    refine wp_mono (spec_getCache cf q p s hwf hI) ?_ (by intro _ _ h; exact h.elim)
+    rintro _ s1 ⟨hI1, hh1, -, -⟩
+    refine wp_mono (spec_prepare cf q p s1 hI1 hh1) ?_ ?_
+    · rintro _ s2 ⟨hI2, -⟩
+      exact wp_mono (spec_execSql cf q p false false s2 hwf hI2) (fun _ _ h => h.1) (fun _ _ h => h)
+    · rintro _ s2 ⟨⟨hI2, -⟩, hq⟩; exact ⟨hI2, hq⟩
   | write many => exact wp_mono (spec_execSql cf q p true many s hwf hI) (fun _ _ h => h.1) (fun _ _ h => h)
   | modify ws =>
     simp only [runOp, wp_bind, wp_modC]
